@@ -19,12 +19,17 @@ LAST_DIFF = None
 import itertools
 
 
+# element universe: small ints, optionally with None / a string / a tuple as elements (any hashable
+# value is a legitimate set element; None in particular must not be confused with a sentinel)
+EL = {'ints': list(range(U)), 'none': [0, None, 2, 'x'][:U] + list(range(4, U)), 'mixed': [None, (), '', 0][:U] + list(range(4, U))}[PARAMS.get('elems', 'ints')]
+
+
 def seqs(maxlen, only=None):
     out = []
     for n in range(maxlen + 1):
         if only is not None and n != only:
             continue
-        out.extend(list(p) for p in itertools.permutations(range(U), n))
+        out.extend([EL[i] for i in p] for p in itertools.permutations(range(U), n))
     return out
 
 
@@ -36,7 +41,7 @@ NYS = len(YS)
 
 def observe(s):
     fwd = list(s)
-    d = dict(fwd=fwd, rev=list(reversed(s)), n=len(s), mem=[(e in s) for e in range(U)])
+    d = dict(fwd=fwd, rev=list(reversed(s)), n=len(s), mem=[(e in s) for e in EL])
     if isinstance(s, QuerySet):
         d['first'] = s.first
         d['last'] = s.last
@@ -44,7 +49,7 @@ def observe(s):
 
 
 def expect(m, isq):
-    d = dict(fwd=list(m), rev=list(m)[::-1], n=len(m), mem=[(e in m) for e in range(U)])
+    d = dict(fwd=list(m), rev=list(m)[::-1], n=len(m), mem=[(e in m) for e in EL])
     if isq:
         d['first'] = m[0] if m else None
         d['last'] = m[-1] if m else None
@@ -78,7 +83,7 @@ def check_unary(cx: int, k: int) -> bool:
     pre: 0 <= cx < NXS and 0 <= k < U
     post: POST(_)
     """
-    return _run(list(XS[cs(cx, 0, NXS - 1)]), [], cs(k, 0, U - 1), 0)
+    return _run(list(XS[cs(cx, 0, NXS - 1)]), [], EL[cs(k, 0, U - 1)], 0)
 
 
 def check_iter(cx: int, mask: int) -> bool:
@@ -173,18 +178,18 @@ def _run(xs, ys, k, mask):
             visited = []
             for e in s:
                 visited.append(e)
-                if (mask >> e) & 1:
+                if (mask >> EL.index(e)) & 1:
                     s.remove(e)
             res = visited; exp_res = list(xs)
-            model = [x for x in xs if not (mask >> x) & 1]
+            model = [x for x in xs if not (mask >> EL.index(x)) & 1]
         elif OP == 'iter_discard_rev':
             visited = []
             for e in reversed(s):
                 visited.append(e)
-                if (mask >> e) & 1:
+                if (mask >> EL.index(e)) & 1:
                     s.discard(e)
             res = visited; exp_res = list(xs)[::-1]
-            model = [x for x in xs if not (mask >> x) & 1]
+            model = [x for x in xs if not (mask >> EL.index(x)) & 1]
         else:
             raise AssertionError('unknown op ' + OP)
     except KeyError:
@@ -203,9 +208,9 @@ def _run(xs, ys, k, mask):
         r, eset = result_set
         rl = list(r)
         if set(rl) != eset or len(rl) != len(eset) or list(reversed(r)) != rl[::-1] or len(r) != len(eset):
-            LAST_DIFF = ('algebra result', rl, sorted(eset)); return False
-        if [(e in r) for e in range(U)] != [(e in eset) for e in range(U)]:
-            LAST_DIFF = ('algebra membership', rl, sorted(eset)); return False
+            LAST_DIFF = ('algebra result', rl, list(eset)); return False
+        if [(e in r) for e in EL] != [(e in eset) for e in EL]:
+            LAST_DIFF = ('algebra membership', rl, list(eset)); return False
     if binary and OTYPE not in ('self', 'generator') and OP != 'ctor':
         if list(other) != ys:
             LAST_DIFF = ('operand modified', list(other), ys); return False
